@@ -19,7 +19,7 @@ REQUIRED = ['entries_checked', 'induced_changes_matched', 'trees_checked'] + ['r
 
 
 def gen_cases(tier, seed):
-    n = {'quick': 4400, 'thorough': 440000}[tier]
+    n = {'quick': 15400, 'thorough': 440000}[tier]
     out = []
     for k in range(n):
         cs = case_seed(seed, PID, k)
